@@ -135,6 +135,16 @@ def is_noop(n, kind, size):
     return False
 
 
+def rebases_clipping_layers(recipe):
+    """the node named "noop" is not a clipping layer and the node directly above it is: its insertion gives the clipping
+    layers above it another base (it splits a run or adopts base-less layers)"""
+    for _path, lst in lists_of(recipe):
+        for k, n in enumerate(lst):
+            if n.get("name") == "noop":
+                return (not n.get("clip")) and k + 1 < len(lst) and bool(lst[k + 1].get("clip"))
+    return False
+
+
 def insertion_points(recipe):
     """(path, index, in_run): every position of every list; in_run = the node above is a clipping layer of a run
     that starts below the position (a non-clipping layer inserted there would split the run)"""
@@ -250,6 +260,12 @@ def check_law(doc_t, law, want_model=False):
                 return out
             base = dict(doc_t, recipe=remove_named(doc_t["recipe"], "noop"))
             if not base["recipe"]:
+                out["invalid"] = True
+                return out
+            if rebases_clipping_layers(doc_t["recipe"]):
+                # (a shrunk document can lose the base of a run: the inserted non-clipping layer would then adopt the clipping
+                # layers above it - a change of the clipping structure, not the insertion of a layer that does nothing;
+                # thorough tier, seed 31)
                 out["invalid"] = True
                 return out
             psd_t = cc.build(doc_t)
